@@ -258,7 +258,8 @@ theorem timed_out_op_releases_lock (o : TOpts) (hc : o.closeBeforeJoin = true) (
 /-- whatever the order: `ScrapliTimeout` reaches the user only after the worker has left the lock context -/
 theorem raised_only_after_release (o : TOpts) (sched : List Bool) :
     (trun o sched).pc = .raised → (trun o sched).lock = false := by
-  let inv : TSt → Bool := fun s => (s.lock == s.blocked) && (s.pc != .raised || !s.blocked)
+  let inv : TSt → Bool := fun s => (s.lock == s.blocked) && (s.pc != .raised || !s.blocked) &&
+    (o.closeBeforeJoin || s.pc != .second || !s.blocked)   -- join first: past the join the worker has ended
   have hstep : ∀ (s : TSt) (t : Bool), inv s = true → inv (tstep o s t) = true := by
     intro s t
     rcases o with ⟨cbj, cw⟩
@@ -269,7 +270,7 @@ theorem raised_only_after_release (o : TOpts) (sched : List Bool) :
     induction l with
     | nil => intro s h; exact h
     | cons t l ih => intro s h; exact ih _ (hstep s t h)
-  have h := hreach sched {} (by decide)
+  have h := hreach sched {} (by simp [inv])
   unfold trun
   generalize sched.foldl (tstep o) {} = s at h
   rcases s with ⟨pc, c, b, l⟩
